@@ -116,6 +116,13 @@ def function(ex: I.Executor, f, args, kwargs):
         if isinstance(v, VNone):
             ex.raise_py(TypeError)
         raise OutOfSubset(f'int of {v!r}')
+    if isinstance(f, type) and issubclass(f, float) and f is not float and len(args) == 1 and \
+            isinstance(args[0], (VInt, VBool, VDec, VFloat)):
+        # a float subclass (xs:float): the double conversion, tagged with the class.
+        # Its range/precision clamps are not modelled (A-FP).
+        ex.note(f'A-FP: {f.__name__}(x) is modelled as float(x) tagged with the class (single-precision rounding not modelled)')
+        v = ex.to_float(args[0])
+        return VFloat(v.nan, v.inf, v.val, v.neg, f)
     if f is float:
         if not args:
             return lift(0.0)
@@ -227,6 +234,17 @@ def function(ex: I.Executor, f, args, kwargs):
         raise OutOfSubset('Fraction(...)')
     if f is decimal.localcontext:
         return VObj(I.DecimalLocalContext, {'prec': VInt(I.PREC)}, fresh=True)
+    if f is math.trunc:
+        v = args[0]
+        if isinstance(v, VFloat):
+            if ex.branch(v.nan):
+                ex.raise_py(ValueError)
+            if ex.branch(v.inf != 0):
+                ex.raise_py(OverflowError)
+            return VInt(I.trunc_real(v.val))
+        r = I.as_real_term(v)
+        if r is not None:
+            return VInt(I.trunc_real(r))
     if f is math.floor or f is math.ceil:
         v = args[0]
         r = I.as_real_term(v)
@@ -474,7 +492,12 @@ def method(ex: I.Executor, recv: Val, name: str, args, kwargs):
                 raise OutOfSubset('quantize with symbolic exponent/rounding')
             return quantize(ex, recv, decimal.Decimal(q), rmode)
         if name == 'adjusted':
-            return VInt(ex.fresh('adjusted', z3.IntSort()))      # opaque (only used to size a context)
+            # adjusted() = floor(log10(|x|)): opaque, with the bracketing facts at a few scales
+            adj = ex.fresh('adjusted', z3.IntSort())
+            ax = z3.If(recv.t >= 0, recv.t, -recv.t)
+            for k in (0, 1, 27, 28, 29, 60, 308):
+                ex.path.pc.append(z3.And(z3.Implies(z3.And(ax < 10 ** k, ax != 0), adj < k), z3.Implies(ax >= 10 ** k, adj >= k)))
+            return VInt(adj)
         if name == 'as_tuple':
             # exponent e of the decimal: value * 10**(-e) is an integer.  Facts are instantiated
             # for the scales -8..8 (enough for the concrete precisions used in contracts).
